@@ -53,7 +53,7 @@ def gen_case(rng, size, flavour=None):
     if rng.random() < 0.35 and measure_len > 1:
         pickup = rng.choice([u for u in units if u < measure_len] or [0])
     flavour = flavour or rng.choices(
-        ["musical", "random", "deadpan", "wild", "single"], weights=[50, 20, 10, 12, 8])[0]
+        ["musical", "random", "deadpan", "wild", "single", "lonely"], weights=[46, 20, 10, 12, 7, 5])[0]
     n_onsets = 1 if flavour == "single" else rng.randint(2, max(2, size))
     notes = []
     t = 0
@@ -83,8 +83,16 @@ def gen_case(rng, size, flavour=None):
             notes.append({"id": "n%d" % nid, "pitch": p, "start": t, "end": t + d, "voice": v, "grace": False})
             nid += 1
         t += rng.choice(units) if k > 0 or not pickup else pickup
-    if rng.random() < 0.08:  # a trailing grace note after everything else has ended
+    if rng.random() < 0.12:  # a trailing grace note after everything else has ended
         tend = max(n["end"] for n in notes)
+        if qd % 3 == 0 and rng.random() < 0.6:
+            # ... whose predecessor has a triplet length: its end (onset + duration, both single precision) is not
+            # exactly the grace note's onset (5/6 vs 0.5 + 1/3), the last score interval must not collapse to ~1e-8 beat
+            st = tend + rng.choice([0, qd // 2, qd // 3])
+            d = rng.choice([qd // 3, 2 * qd // 3])
+            notes.append({"id": "n%d" % nid, "pitch": 72, "start": st, "end": st + d, "voice": 1, "grace": False})
+            nid += 1
+            tend = st + d
         notes.append({"id": "n%d" % nid, "pitch": 70, "start": tend, "end": tend, "voice": 1, "grace": True})
         nid += 1
     rng.shuffle(notes)  # insertion order into the part must not matter
@@ -103,7 +111,7 @@ def gen_case(rng, size, flavour=None):
         if flavour == "deadpan":
             on = start + float(beats) * bp
             d = max(float(Fraction(n["end"] - n["start"]) / div_per_beat) * bp, 0.125)
-        elif flavour in ("musical", "single"):
+        elif flavour in ("musical", "single", "lonely"):
             if prev_on is None or n["start"] != prev_on[0]:
                 if prev_on is not None:
                     bp = min(3.0, max(0.1, bp * math.exp(rng.gauss(0, 0.15))))
@@ -125,9 +133,19 @@ def gen_case(rng, size, flavour=None):
     align = []
     extra_perf = []
     deleted = set()
+    force = set()
+    if flavour == "lonely":  # everything deleted but the notes of one score onset
+        keep_t = rng.choice(sorted({n["start"] for n in notes}))
+        force = {i for i, n in enumerate(notes) if n["start"] != keep_t}
+    for t_g in sorted({n["start"] for n in notes if n["grace"]}):
+        # a score onset at which only grace notes are matched (their main notes were not played)
+        if rng.random() < 0.3 and any(n["start"] != t_g for n in notes):
+            force |= {i for i, n in enumerate(notes) if n["start"] == t_g and not n["grace"]}
+    if len(force) >= len(notes):
+        force = set()
     for i, n in enumerate(notes):
         r = rng.random()
-        if r < 0.08 and len(notes) - len(deleted) > 1:
+        if i in force or (r < 0.08 and len(notes) - len(deleted) - len(force - deleted) > 1):
             align.append({"label": "deletion", "score_id": n["id"]})
             deleted.add(i)
         else:
@@ -159,7 +177,8 @@ def gen_case(rng, size, flavour=None):
         rng.shuffle(align)
     return {"qd": qd, "ts": list(ts), "pickup": pickup, "measure_len": measure_len, "notes": notes, "perf": perf_out,
             "align": align, "flavour": flavour,
-            "norm": rng.choice(NORMS), "method": rng.choice(METHODS), "remove_ornaments": rng.random() < 0.6}
+            "norm": rng.choice(NORMS), "method": rng.choice(METHODS), "remove_ornaments": rng.random() < 0.6,
+            "wrap": rng.choices(["objects", "containers", "arrays"], weights=[70, 15, 15])[0]}
 
 
 # ----------------------------------------------------------------------------
@@ -216,6 +235,12 @@ def run_impl(case):
     pna = ppart.note_array()
     obs = {"sna": sna, "pna": pna, "part": part, "ppart": ppart}
     al = case["align"]
+    wrap = case.get("wrap", "objects")
+    if wrap == "containers":  # a single-part Score and a Performance instead of the bare Part / PerformedPart
+        import partitura.score as S
+        from partitura.performance import Performance
+        part, ppart = S.Score([part], id="S0"), Performance(ppart, id="PF0")
+    s_in, p_in = (sna, pna) if wrap == "arrays" else (part, ppart)
 
     def attempt(name, f):
         try:
@@ -225,7 +250,7 @@ def run_impl(case):
             obs[name + "_exc"] = "%s: %s" % (type(e).__name__, str(e)[:200])
 
     attempt("matched_idx", lambda: PC.get_matched_notes(sna, pna, copy_al(al)))
-    attempt("mscore", lambda: PC.to_matched_score(part, ppart, copy_al(al)))
+    attempt("mscore", lambda: PC.to_matched_score(s_in, p_in, copy_al(al)))
     attempt("enc", lambda: PC.encode_performance(part, ppart, copy_al(al), return_u_onset_idx=True,
                                                  beat_normalization=case["norm"], tempo_smooth=case["method"]))
     if obs["enc"] is not None:
@@ -234,7 +259,11 @@ def run_impl(case):
                                                      beat_normalization=case["norm"]))
         if len(sids) == len(sna):
             attempt("dec_all", lambda: PC.decode_performance(part, params.copy(), beat_normalization=case["norm"]))
-    attempt("tmaps", lambda: PC.get_time_maps_from_alignment(ppart, part, copy_al(al),
+        if case["norm"] != "beat_period":
+            # the beat_period column alone must decode as well ("in practice, always reconstruct the time by beat_period")
+            attempt("dec_bp", lambda: PC.decode_performance(part, params.copy(), snote_ids=list(sids),
+                                                            beat_normalization="beat_period"))
+    attempt("tmaps", lambda: PC.get_time_maps_from_alignment(p_in, s_in, copy_al(al),
                                                              remove_ornaments=case["remove_ornaments"]))
     return obs
 
@@ -271,7 +300,8 @@ def oracle(case, obs):
         bad.append(("matched_idx_exc", "get_matched_notes raised " + obs["matched_idx_exc"]))
     else:
         got = [tuple(int(v) for v in row) for row in np.asarray(mi).reshape(-1, 2)] if len(mi) else []
-        if got != exp:
+        # the property fixes WHICH pairs the table holds, not the order get_matched_notes lists them in
+        if sorted(got) != sorted(exp):
             bad.append(("matched_idx", "get_matched_notes = %r, expected the alignment's matches present on both sides %r" % (got, exp)))
     # --- O2: matched score
     ms = obs["mscore"]
@@ -291,9 +321,13 @@ def oracle(case, obs):
             for row, i in zip(arr, sids):
                 s, p = s_of[i]
                 want = (float(sna["onset_beat"][s]), float(sna["duration_beat"][s]), int(sna["pitch"][s]),
-                        float(pna["onset_sec"][p]), max(float(pna["duration_sec"][p]), MIN_PDUR), int(pna["velocity"][p]))
+                        float(pna["onset_sec"][p]), float(pna["duration_sec"][p]), int(pna["velocity"][p]))
                 gotr = (float(row["onset"]), float(row["duration"]), int(row["pitch"]), float(row["p_onset"]),
                         float(row["p_duration"]), int(row["velocity"]))
+                if want[4] < MIN_PDUR and abs(gotr[4] - MIN_PDUR) <= 4 * F32:
+                    # the deliberate floor on performed durations (known finding C18-K2, reported through the
+                    # decoded duration); the pairing itself is right
+                    want = want[:4] + (gotr[4],) + want[5:]
                 if any(abs(a - b) > 4 * F32 * max(1.0, abs(b)) for a, b in zip(gotr, want)):
                     bad.append(("mscore_row", "to_matched_score row for %s = %r, expected %r" % (i, gotr, want)))
                     break
@@ -304,19 +338,19 @@ def oracle(case, obs):
     else:
         params, sids, uidx = obs["enc"]
         sids = [str(s) for s in sids]
-        for key in ("dec", "dec_all"):
+        for key in ("dec", "dec_all", "dec_bp"):
             if key not in obs:
                 continue
             if obs[key] is None:
                 bad.append((key + "_exc", "decode_performance raised " + obs[key + "_exc"]))
                 continue
-            bad += oracle_roundtrip(case, obs, exp, sids, obs[key], key)
+            bad += oracle_roundtrip(case, obs, exp, sids, obs[key], key, "beat_period" if key == "dec_bp" else case["norm"])
     # --- O3: time maps
     bad += oracle_timemaps(case, obs, exp)
     return bad
 
 
-def oracle_roundtrip(case, obs, exp, sids, dppart, key):
+def oracle_roundtrip(case, obs, exp, sids, dppart, key, normd):
     import numpy as np
 
     bad = []
@@ -329,12 +363,21 @@ def oracle_roundtrip(case, obs, exp, sids, dppart, key):
     if sorted(dec) != sorted(pairs) or any(len(v) != 1 for v in dec.values()):
         return [(key + "_ids", "decoded performance has notes %r, expected one per matched score note %r" % (sorted(dec), sorted(pairs)))]
     span = max(float(pna["onset_sec"][p]) for _, p in exp) - min(float(pna["onset_sec"][p]) for _, p in exp)
-    tol_on = 2e-6 * max(1.0, span)
+    # "within single-precision rounding": the parameters are stored as float32, so a decoded onset
+    # (cumulated beat period x score interval, minus timing) carries a rounding error proportional to the
+    # MAGNITUDE of the stored timing and of the equivalent onsets it is subtracted from (= timing + performed
+    # onset), not to the performed times themselves: a long performed interval over a tiny score interval
+    # (1/480 beat) gives beat periods of ~1e3 s/beat and equivalent onsets of ~1e3 s, i.e. ~1e-4 s of rounding.
+    # 2e-6 ~ 16 ulp of float32, per unit of the largest magnitude involved.
+    tim = {str(i): float(t) for i, t in zip(sids, obs["enc"][0]["timing"])}
+    mags = [1.0, span] + [abs(t) for t in tim.values()]
+    mags += [abs(tim[str(sna["id"][s])] + float(pna["onset_sec"][p])) for s, p in exp if str(sna["id"][s]) in tim]
+    tol_on = 2e-6 * max(m for m in mags if math.isfinite(m))
     # standardized beat periods are rebuilt as z * std + mean from single-precision parameters: the
     # rounding is absolute (relative to |mean| + |z * std|), not relative to the beat period itself
     bp_abs_err = 0.0
     params = obs["enc"][0]
-    if case["norm"] == "beat_period_standardized":
+    if normd == "beat_period_standardized":
         mu = float(params["beat_period_mean"][0])
         bp_abs_err = 8 * F32 * (abs(mu) + max(abs(float(b) - mu) for b in params["beat_period"]))
         sons = [float(sna["onset_beat"][s]) for s, _ in exp]
@@ -345,7 +388,7 @@ def oracle_roundtrip(case, obs, exp, sids, dppart, key):
         d = dec[sid][0]
         on, du, ve = float(d["onset_sec"]), float(d["duration_sec"]), int(d["velocity"])
         if not (math.isfinite(on) and math.isfinite(du)):
-            bad.append((key + "_nan", "decoded note %s has onset %r duration %r (norm %s, method %s)" % (sid, on, du, case["norm"], case["method"])))
+            bad.append((key + "_nan", "decoded note %s has onset %r duration %r (encoded with %s, method %s; decoded with %s)" % (sid, on, du, case["norm"], case["method"], normd)))
             return bad
         shifts.append((on - float(pna["onset_sec"][p]), sid))
         pd = float(pna["duration_sec"][p])
@@ -389,16 +432,24 @@ def oracle_timemaps(case, obs, exp):
     if obs["tmaps"] is None:
         return [("tmaps_exc", "get_time_maps_from_alignment raised " + obs["tmaps_exc"])]
     p2s, s2p = obs["tmaps"]
-    if any(m is None for _, m in knots):
-        # an onset carrying only matched grace notes with remove_ornaments=True
-        vals = [float(np.asarray(s2p(float(u)))) for u, m in knots if m is not None]
-        if not all(math.isfinite(v) for v in vals):
-            bad.append(("tmaps_nan_knot", "time map is not finite at a matched onset because another onset has only ornaments"))
+    # an onset carrying only matched grace notes with remove_ornaments=True has no performed time of its
+    # own: it is no knot; the maps still pass through all the others
+    knots = [(u, m) for u, m in knots if m is not None]
+    if not knots:
         return bad
     for u, m in knots:
         v = float(np.asarray(s2p(float(u))))
         if not abs(v - float(m)) <= 8 * F32 * max(1.0, abs(float(m))):
             bad.append(("tmaps_s2p", "stime_to_ptime(%g) = %.9g, expected the mean performed onset %.9g" % (float(u), v, float(m))))
+            break
+    # between two neighbouring matched onsets the map stays between their performed times
+    for (u0, m0), (u1, m1) in zip(knots, knots[1:]):
+        x = float((u0 + u1) / 2)
+        v = float(np.asarray(s2p(x)))
+        lo, hi = float(min(m0, m1)), float(max(m0, m1))
+        if not (lo - 8 * F32 * max(1.0, abs(lo)) <= v <= hi + 8 * F32 * max(1.0, abs(hi))):
+            bad.append(("tmaps_between", "stime_to_ptime(%g) = %.9g is not between the performed times %.9g and %.9g of the "
+                        "neighbouring matched onsets" % (x, v, float(m0), float(m1))))
             break
     ms = [m for _, m in knots]
     if all(b - a > Fraction(1, 10 ** 5) for a, b in zip(ms, ms[1:])):
@@ -441,67 +492,96 @@ def case_term(case, obs):
     midx = [ctuple([cz(int(r[0])), cz(int(r[1]))]) for r in np.asarray(mi).reshape(-1, 2)] if len(mi) else []
     params, sids, uidx = obs["enc"]
     sidc = [cz(code(s)) for s in sids]
+    uterm = clist([clist([cz(int(j)) for j in u]) for u in uidx])
     norm_i = NORMS.index(case["norm"])
     names = list(params.dtype.names)[4:]
     prm, ncols = [], []
     for r in params:
-        prm.append(ctuple([cq(fr(r["beat_period"])), cq(fr(r["velocity"])), cq(fr(r["timing"])),
-                           cq(Fraction(2.0 ** float(r["articulation_log"])))]))
+        vals = [float(r["beat_period"]), float(r["velocity"]), float(r["timing"]), 2.0 ** float(r["articulation_log"])]
         cols = []
         for nm in names:
             v = float(r[nm])
             if nm.endswith("_log"):
                 v = 2.0 ** v
-            cols.append(cq(Fraction(v)))
-        ncols.append(clist(cols))
+            cols.append(v)
+        if not all(math.isfinite(v) for v in vals + cols):
+            return None
+        prm.append(ctuple([cq(Fraction(v)) for v in vals]))
+        ncols.append(clist([cq(Fraction(v)) for v in cols]))
     exp = expected_matches(case, sna, pna)
     pon = [float(pna["onset_sec"][p]) for _, p in exp] or [0.0]
     span = max(pon) - min(pon)
-    dec_terms, decmode = [], 0
-    if obs.get("dec") is not None and norm_i in (0, 2):
-        decmode = 1
-        for n in obs["dec"].notes:
+    # tolerances: the decoder accumulates single-precision beat periods times score intervals
+    bps = [float(b) for b in params["beat_period"]]
+    sons = sorted(float(sna["onset_beat"][s]) for s, _ in exp) or [0.0]
+    sspan = sons[-1] - sons[0]
+    bperr = 0.0
+    if norm_i == 4 and len(params):
+        mu = float(params["beat_period_mean"][0])
+        bperr = 8 * F32 * (abs(mu) + max(abs(b - mu) for b in bps))
+    tims = [float(t) for t in params["timing"]]
+    sid_pos = {str(x): k for k, x in enumerate(sids)}
+    eqs = [tims[sid_pos[str(sna["id"][s])]] + float(pna["onset_sec"][p]) for s, p in exp if str(sna["id"][s]) in sid_pos]
+    total = max([1.0, span, max(bps or [0.0]) * sspan] + [abs(t) for t in tims] + [abs(e) for e in eqs])
+    dtol = Fraction(4e-6 * total + bperr * (sspan + 1.0))
+    decs = []
+    for key, normd in (("dec", norm_i), ("dec_all", norm_i), ("dec_bp", 0)):
+        if obs.get(key) is None:
+            continue
+        rows = []
+        for n in obs[key].notes:
             on, off = float(n["note_on"]), float(n["note_off"])
             if not (math.isfinite(on) and math.isfinite(off)):
                 return None
-            dec_terms.append(ctuple([cz(code(n["id"])), cq(Fraction(on)), cq(Fraction(off) - Fraction(on)), cz(int(n["velocity"]))]))
-    dtol = Fraction(2, 10 ** 6) * max(1, Fraction(span))
-    # time-map probes
+            rows.append(ctuple([cz(code(n["id"])), cq(Fraction(on)), cq(Fraction(off) - Fraction(on)), cz(int(n["velocity"]))]))
+        if key == "dec_all" and [str(n["id"]) for n in obs[key].notes] != [str(x) for x in sna["id"]]:
+            return None
+        decs.append("(%s, %s)" % (cz(normd), clist(rows)))
+    # time-map probes: kind 0 / 1 at the knots (property), 2 / 3 elsewhere (linear interpolation, extrapolation)
     knots = [(u, m) for u, m in timemap_knots(case, obs, exp) if m is not None]
     p2s, s2p = obs["tmaps"]
     tests = []
     us = [u for u, _ in knots]
     ms = [m for _, m in knots]
     slopes = [abs((m1 - m0) / (u1 - u0)) for (u0, m0), (u1, m1) in zip(knots, knots[1:])]
-    xs = list(us) + [(a + b) / 2 for a, b in zip(us, us[1:])] + ([us[0] - 1, us[-1] + Fraction(3, 2)] if us else [])
+    xs = [(0, u) for u in us] + [(2, (a + b) / 2) for a, b in zip(us, us[1:])] + ([(2, us[0] - 1), (2, us[-1] + Fraction(3, 2))] if us else [])
     vals = []
-    for x in xs:
+    for kind, x in xs:
         y = float(np.asarray(s2p(float(x))))
         if math.isfinite(y):
-            tests.append((True, x, y))
+            tests.append((kind, x, y))
             vals.append(abs(y))
     amp = max([1] + [float(s) for s in slopes])
     monotone = len(ms) >= 2 and all(b - a > Fraction(1, 1000) for a, b in zip(ms, ms[1:]))
     if monotone:
         inv = [abs((u1 - u0) / (m1 - m0)) for (u0, m0), (u1, m1) in zip(knots, knots[1:])]
         amp = max([amp] + [float(s) for s in inv])
-        for x in [(a + b) / 2 for a, b in zip(ms, ms[1:])] + [ms[0] - 1, ms[-1] + 1]:
+        for kind, x in [(1, Fraction(float(m))) for m in ms] + [(3, (a + b) / 2) for a, b in zip(ms, ms[1:])] + [(3, ms[0] - 1), (3, ms[-1] + 1)]:
             y = float(np.asarray(p2s(float(x))))
             if math.isfinite(y):
-                tests.append((False, x, y))
+                tests.append((kind, Fraction(float(x)), y))
                 vals.append(abs(y))
     ttol = Fraction(1, 10 ** 5) * Fraction(max([1.0] + vals)) * Fraction(amp)
-    tterm = clist([ctuple(["true" if d else "false", cq(x), cq(Fraction(y))]) for d, x, y in tests])
-    return ("(%s, %s, %s, %s, (%s, %s, %s, %s, (%s, %s, %s)), (%s, %s, %s))" % (
+    tterm = clist([ctuple([cz(k), cq(x), cq(Fraction(y))]) for k, x, y in tests])
+    return ("(%s, %s, %s, %s, (%s, %s, %s, %s, %s), (%s, %s, %s), (%s, %s, %s))" % (
         ctuple([cz(METHODS.index(case["method"])), cz(norm_i)]), clist(srows), clist(prows), clist(al),
-        clist(midx), clist(sidc), clist(prm), clist(ncols), cz(decmode), cq(dtol), clist(dec_terms),
+        clist(midx), clist(sidc), uterm, clist(prm), clist(ncols), cq(dtol), cq(Fraction(bperr)), clist(decs),
         "true" if case["remove_ornaments"] else "false", cq(ttol), tterm))
 
 
 IMPORTS = "From PV Require Import Model.C18 Model.C18_Check."
-BITS = ["get_matched_notes index table", "snote_ids / matched score order", "onset groups form a partition and agree between encoder and decoder",
-        "tempo curve positive", "beat_period/velocity/timing/articulation parameters", "normalisation columns",
-        "decode_performance output", "time-map values"]
+PROP_BITS = ["get_matched_notes holds exactly the alignment's matches with both ids present",
+             "snote_ids = the matched score notes ordered by score onset then pitch",
+             "beat_period column = what the normalisation columns rescale to",
+             "timing consistent with the performed onsets up to one shift",
+             "articulation consistent with the performed durations",
+             "velocity parameter decodes to the performed velocity",
+             "decode_performance output = the model decoder on the same parameters (onsets up to one shift)",
+             "time maps through the knots (both directions)"]
+TIE_BITS = ["get_matched_notes in alignment order", "snote_ids ties in note-array order",
+            "onset groups (encoder = decoder = returned unique_onset_idxs)", "modelled tempo curve positive",
+            "beat_period = modelled tempo curve / timing origin / v/127 / articulation", "normalisation constants (mean, population variance)",
+            "decoded onsets start at 0", "time maps linear between knots and extrapolating"]
 
 
 def sub_case(case, keep_ids):
@@ -515,6 +595,34 @@ def sub_case(case, keep_ids):
     c = dict(case)
     c.update(notes=notes, align=al, perf=perf)
     return c
+
+
+def case_features(case):
+    """Corner cases the property singles out, for the evidence's input distribution."""
+    out = []
+    by_on = {}
+    for n in case["notes"]:
+        by_on.setdefault(n["start"], []).append(n)
+    matched = {a["score_id"] for a in case["align"] if a["label"] == "match"}
+    if any(len([n for n in v if not n["grace"]]) >= 2 and len({n["voice"] for n in v}) == 1 for v in by_on.values()):
+        out.append("has_chord")
+    if any(len({n["voice"] for n in v}) >= 2 for v in by_on.values()):
+        out.append("has_several_voices")
+    if any(len({n["pitch"] for n in v if not n["grace"]}) < len([n for n in v if not n["grace"]]) for v in by_on.values()):
+        out.append("has_unison_same_onset_and_pitch")
+    if any(all(n["grace"] for n in v if n["id"] in matched) and any(n["id"] in matched for n in v) for v in by_on.values()):
+        out.append("has_onset_with_only_grace_notes_matched")
+    if len({n["start"] for n in case["notes"] if n["id"] in matched}) == 1:
+        out.append("single_matched_onset")
+    last = max(case["notes"], key=lambda n: (n["start"], not n["grace"]))
+    if last["grace"] and last["start"] >= max(n["end"] for n in case["notes"]):
+        out.append("has_trailing_grace_note")
+    for lab in ("deletion", "insertion", "ornament"):
+        if any(a["label"] == lab for a in case["align"]):
+            out.append("has_" + lab)
+    if any(a["label"] == "match" and (a["score_id"] == "ghost-s" or a["performance_id"] == "ghost-p") for a in case["align"]):
+        out.append("has_match_with_unknown_id")
+    return out
 
 
 def fail_codes(case):
@@ -589,6 +697,9 @@ def run(ctx):
             ctx.count("has_grace")
         if case["pickup"]:
             ctx.count("has_pickup")
+        ctx.count("inputs_as:" + case.get("wrap", "objects"))
+        for k in case_features(case):
+            ctx.count(k)
         if any(a["label"] not in ("match",) for a in case["align"]):
             ctx.count("has_insertion_deletion_or_ornament")
         if obs is not None and obs.get("enc") is not None:
@@ -624,21 +735,40 @@ def run(ctx):
                    "%d failing observations" % n_viol)
     if not ok and n_viol == 0:
         ctx.violation("proof obligations of Props/C18.v no longer check: " + why, {"theorem_or_build": why}, no_input=True)
+    shard = 40 if ctx.tier == "quick" else 100
     try:
-        failing = ctx.coq_failing("codec", IMPORTS, "", terms, "c18_check", shard=40 if ctx.tier == "quick" else 100, timeout=1500)
+        failing_any = ctx.coq_failing("codec", IMPORTS, "", terms, "c18_all", shard=shard, timeout=1500)
+        failing = []
+        if failing_any:  # which of them fail a PROPERTY comparison (the others only drift from the modelled formulas)
+            sub = ctx.coq_failing("codecp", IMPORTS, "", [terms[i] for i in failing_any], "c18_check", shard=shard, timeout=1500)
+            failing = [failing_any[k] for k in sub]
         err = None
     except RuntimeError as e:
-        failing, err = [], str(e)
-    ctx.obligation("correspondence: Model/C18.v = implementation (matched table, snote_ids, parameter array, normalisation columns, "
-                   "decoded notes, time maps) on %d cases" % len(terms), err is None and not failing, err or failing[:5])
+        failing_any, failing, err = [], [], str(e)
+    drift = [i for i in failing_any if i not in set(failing)]
+    ctx.obligation("correspondence: the implementation's outputs satisfy the model's specifications (matched table, snote_ids, parameter "
+                   "array consistent with the performance as Model/C18.v's decoder reads it, decoded notes = model decoder on the same "
+                   "parameters for every normalisation used, time maps through the knots) on %d cases" % len(terms),
+                   err is None and not failing, err or failing[:5])
     if err is not None:
         ctx.violation("the model could not be evaluated: " + err[-800:], {"coq_error": err[-2000:]}, no_input=True)
     for i in failing[:3]:
-        bits = ctx.coq_eval(IMPORTS, "c18_check_bits %s" % terms[i])
+        bits = ctx.coq_eval(IMPORTS, "c18_prop_bits %s" % terms[i])
         flags = re_bools(bits)
-        what = [BITS[k] for k, b in enumerate(flags) if not b]
+        what = [PROP_BITS[k] for k, b in enumerate(flags) if not b]
         ctx.violation("model and implementation disagree on: %s" % (", ".join(what) or bits[-300:]),
                       {"code": "correspondence", "disagree": what, "case": kept[i]})
+    # model drift: the property-level comparisons hold, but an output is no longer computed by the formula written in
+    # Model/C18.v (another tempo curve, timing origin, normalisation constant, tie-break, ...).  Not a violation of C18.
+    dwhat = []
+    for i in drift[:2]:
+        flags = re_bools(ctx.coq_eval(IMPORTS, "c18_tie_bits %s" % terms[i]))
+        dwhat.append([TIE_BITS[k] for k, b in enumerate(flags) if not b])
+    ctx.obligation("model tie (informative, not a property clause): outputs computed by the formulas of Model/C18.v (alignment order, "
+                   "tie-break, grouping, tempo_by_average / tempo_by_derivative, timing origin, v/127, normalisation constants, decoded "
+                   "onsets from 0, linear time maps) on %d cases" % len(terms), err is None and not drift,
+                   "%d cases drift, e.g. %r" % (len(drift), dwhat))
+    ctx.extra["model_drift_cases"] = len(drift)
     ctx.extra["exhaustive"] = False
     ctx.extra["cases_in_correspondence"] = len(terms)
 
